@@ -38,11 +38,11 @@ type genState struct {
 	closed bool
 }
 
-var topics = []string{"a", "a.b", "a.b.c", "a.c", "b", "x.y", "a.b.c.d"}
+var topics = []string{"a", "a.b", "a.b.c", "a.c", "b", "x.y", "a.b.c.d", "a.bb", "aa.b", "a.b.cc", "ab"}
 var badURIs = []string{"", "a..b", "a.", ".a", "a b", "A.b", "a#b", "a.b."}
 var pfxPatterns = []string{"a", "a.", "a.b", "", "x", "a.b.c"}
 var wcPatterns = []string{"a..c", ".b", "a.", "..", "", "a.b.", "..c"}
-var procs = []string{"p", "p.q", "p.q.r", "q", "p.x"}
+var procs = []string{"p", "p.q", "p.q.r", "q", "p.x", "p.q.rr", "pp.q", "pq"}
 var metaTopics = []string{"wamp.session.on_join", "wamp.session.on_leave", "wamp.subscription.on_create",
 	"wamp.subscription.on_subscribe", "wamp.subscription.on_unsubscribe", "wamp.subscription.on_delete",
 	"wamp.registration.on_create", "wamp.registration.on_register", "wamp.registration.on_unregister",
@@ -102,7 +102,8 @@ func (g *genState) config() map[string]any {
 		cfg["localAuthz"] = r.Chance(1, 2)
 	}
 	g.realms = []string{"r1"}
-	if g.prop == "C11" || g.prop == "C06" || r.Chance(1, 10) {
+	first := cfg
+	if g.prop == "C11" || g.prop == "C06" || r.Chance(1, 10) || (g.prop == "C10" && r.Chance(1, 3)) {
 		// a second realm with the same URIs in use; its own settings
 		cfg2 := map[string]any{"uri": "r2", "strict": false, "disclose": r.Chance(1, 2), "metaKill": r.Chance(3, 4),
 			"metaModify": r.Chance(1, 2), "metaStrict": false}
@@ -118,6 +119,11 @@ func (g *genState) config() map[string]any {
 				tmpl["history"] = hs
 			} else if r.Chance(1, 2) {
 				tmpl["history"] = []any{map[string]any{"topic": "a", "match": "prefix", "limit": 2}}
+			}
+			if rules, ok := first["authz"]; ok && r.Chance(2, 3) {
+				// realms created from the template get the template's Authorizer and local-session policy
+				tmpl["authz"] = rules
+				tmpl["localAuthz"] = first["localAuthz"]
 			}
 			cfg["template"] = tmpl
 			g.realms = append(g.realms, "t1", "t2", "bad realm")
@@ -685,7 +691,8 @@ func (g *genState) metaCall(k int) map[string]any {
 	case 4:
 		kw := map[string]any{}
 		if r.Chance(1, 2) {
-			kw["reason"] = hcommon.Pick(r, []any{"app.kick", "bad uri", ""})
+			// (the router's own shutdown reason must not make a killed session leave as in a realm shutdown)
+			kw["reason"] = hcommon.Pick(r, []any{"app.kick", "bad uri", "", "wamp.close.system_shutdown", "wamp.close.system_shutdown"})
 		}
 		if r.Chance(1, 2) {
 			kw["message"] = "bye"
@@ -698,7 +705,7 @@ func (g *genState) metaCall(k int) map[string]any {
 			// killed too) depends on the order of their handlers
 			return call("wamp.session.count", nil, nil)
 		}
-		return call("wamp.session.kill_by_authid", []any{hcommon.Pick(r, []any{"alice", "bob", "nobody", 3})}, map[string]any{"reason": "app.kick"})
+		return call("wamp.session.kill_by_authid", []any{hcommon.Pick(r, []any{"alice", "bob", "nobody", 3})}, map[string]any{"reason": hcommon.Pick(r, []any{"app.kick", "wamp.close.system_shutdown"})})
 	case 6:
 		if g.anySmallCap() {
 			return call("wamp.session.count", nil, nil)
